@@ -90,6 +90,51 @@ func Evolve(s *Schema, r *prng.Rand) *Evolved {
 	if len(ev.Changed) == 0 {
 		return nil
 	}
+	// plant an evolved top-level message in every container context, each followed by a
+	// sentinel field, identically in both versions
+	var top string
+	for _, n := range ev.Changed {
+		for _, d := range nw.Defs {
+			if d.Name == n && d.Kind == KMessage {
+				top = n
+			}
+		}
+	}
+	if top != "" {
+		m := N(top)
+		sent := func() Field { return F(nm.fresh(false), P("uint32")) }
+		ctx := func() []*Def {
+			return nil
+		}
+		_ = ctx
+		names := []string{nm.fresh(true), nm.fresh(true), nm.fresh(true), nm.fresh(true), nm.fresh(true), nm.fresh(true), nm.fresh(true)}
+		fn := []string{nm.fresh(false), nm.fresh(false), nm.fresh(false), nm.fresh(false)}
+		sn := []Field{sent(), sent(), sent(), sent(), sent(), sent()}
+		mkctx := func(inner func() *Def) []*Def {
+			return []*Def{
+				St(names[0], F(fn[0], m), sn[0]),
+				St(names[1], F(fn[1], A(m)), sn[1]),
+				St(names[2], F(fn[2], M("string", m)), sn[2]),
+				Msg(names[3], MF(1, fn[3], m), Field{Name: sn[3].Name, Type: sn[3].Type, Index: 2}),
+				Un(names[4], Br(1, inner())),
+				St(names[6], F(fn[0], N(names[4])), sn[4]),
+			}
+		}
+		innerFields := func(s *Schema) func() *Def {
+			return func() *Def {
+				src := s.Lookup(top)
+				d := cloneDef(src)
+				d.Name = names[5]
+				d.OpCode = 0
+				return d
+			}
+		}
+		old.Defs = append(old.Defs, mkctx(innerFields(old))...)
+		nw.Defs = append(nw.Defs, mkctx(innerFields(nw))...)
+		ev.Changed = append(ev.Changed, names[5])
+		old.index()
+		nw.index()
+	}
 	return ev
 }
 
